@@ -101,6 +101,25 @@ HoistThroughTranspose(t1, e) ==
                                ELSE [swapped.nodes[id] EXCEPT !.ins = Subst(@, NRef(e), NRef(t1))]],
                   !.outs = Subst(@, NRef(e), NRef(t1))]
 
+\* R1 -> e -> R2 with a layout-free elementwise node in between: e(Reshape(x)) = Reshape(e(x)).
+\* (remove_redundant_reshape_pairs folds the whole chain at once and must then refresh the declared
+\* shape of every moved node, producer first -- a stale declaration makes a later identity-Reshape
+\* test misfire; the RChain patterns with a follow-up Reshape exercise exactly that.)
+HoistThroughReshape(r1, e) ==
+    /\ OpOf(g, NRef(r1)) = "Reshape" /\ e \in Ids(g) /\ e # r1
+    /\ LayoutFree(g, e, NRef(r1))
+    /\ PrivateTo(g, NRef(r1), e)
+    /\ LET x == g.nodes[r1].ins[1]
+           nd == g.nodes[e]
+           e2 == [nd EXCEPT !.ins = Subst(@, NRef(r1), x)]
+           r2 == [g.nodes[r1] EXCEPT !.ins = <<NRef(e)>>]
+           swapped == SetNode(SetNode(g, e, e2), r1, r2)
+       IN g' = [swapped EXCEPT
+                  !.nodes = [id \in Ids(g) |->
+                               IF id = r1 THEN swapped.nodes[id]
+                               ELSE [swapped.nodes[id] EXCEPT !.ins = Subst(@, NRef(e), NRef(r1))]],
+                  !.outs = Subst(@, NRef(e), NRef(r1))]
+
 \* T1 -> ReduceMean(keepdims) -> T2  ==>  ReduceMean(mapped axes)
 FoldTransposeReduce(t1, rd, t2) ==
     /\ OpOf(g, NRef(t1)) = "Transpose" /\ OpOf(g, NRef(rd)) = "ReduceMean" /\ OpOf(g, NRef(t2)) = "Transpose"
@@ -173,6 +192,7 @@ Dce(id) ==
 Tick == steps' = steps + 1 /\ UNCHANGED g0
 R_FoldTransposePair == (\E a, b \in Ids(g) : FoldTransposePair(a, b)) /\ Tick
 R_HoistThroughTranspose == (\E a, b \in Ids(g) : HoistThroughTranspose(a, b)) /\ Tick
+R_HoistThroughReshape == (\E a, b \in Ids(g) : HoistThroughReshape(a, b)) /\ Tick
 R_LiftAdd == (\E a, b \in Ids(g) : LiftAdd(a, b)) /\ Tick
 R_FoldReshapePair == (\E a, b \in Ids(g) : FoldReshapePair(a, b)) /\ Tick
 R_FoldCastPair == (\E a, b \in Ids(g) : FoldCastPair(a, b)) /\ Tick
@@ -182,7 +202,7 @@ R_DropIdentityReshape == (\E a \in Ids(g) : DropIdentityReshape(a)) /\ Tick
 R_DropNoopCast == (\E a \in Ids(g) : DropNoopCast(a)) /\ Tick
 R_Dce == (\E a \in Ids(g) : Dce(a)) /\ Tick
 
-Next == \/ R_FoldTransposePair \/ R_HoistThroughTranspose \/ R_LiftAdd \/ R_FoldReshapePair
+Next == \/ R_FoldTransposePair \/ R_HoistThroughTranspose \/ R_HoistThroughReshape \/ R_LiftAdd \/ R_FoldReshapePair
         \/ R_FoldCastPair \/ R_MulSigmoidToSwish \/ R_FoldTransposeReduce
         \/ R_DropIdentityReshape \/ R_DropNoopCast \/ R_Dce
 Spec == Init /\ [][Next]_vars
